@@ -97,6 +97,7 @@ structure FloatLaws (F : FloatOps) : Prop where
   to64_notNaN : ∀ x, F.isNaN32 x = false → F.isNaN64 (F.to64 x) = false
   sqrt_ge0 : ∀ x, F.ge0_64 x = true → F.ge0_64 (F.sqrt64 x) = true
   abs_ge0 : ∀ x, F.isNaN64 x = false → F.ge0_64 (F.abs64 x) = true
+  zero32_ge0 : F.ge0_32 F.zero32 = true
   negZero32_ge0 : F.ge0_32 F.negZero32 = true
   negZero64_ge0 : F.ge0_64 F.negZero64 = true
   zero64_ge0 : F.ge0_64 F.zero64 = true
